@@ -316,6 +316,8 @@ func init() {
 			})
 			c.guard("C18.5", func() { ruleDemuxRunEscapable(c, "C18.5") })
 			c.guard("C18.6", func() {
+				ruleChannelReadFailsAfterClose(c, "C18.6", c.p.MustFn("goat.demuxConn.Read"), "demuxConn.Read")
+				ruleWriteFailsAfterCancel(c, "C18.6", c.p.MustFn("goat.demuxConn.Write"), "demuxConn.Write")
 				r, _ := c.p.rwClosures(c.p.MustFn("goat.NewGoatOverChannel"))
 				ruleChannelReadFailsAfterClose(c, "C18.6", r, "chan.read")
 			})
